@@ -639,7 +639,7 @@ class BaseScenario(BaseMonitoredProcess):
         # This ensures that the callback is called after the last iteration.
         if self.__history_backup_is_set:
             n_x_a = len(database)
-            if 0 < n_x < n_x_a:
+            if n_x < n_x_a:
                 x_vect = database.get_x_vect(n_x_a)
                 self._execute_backup_callback(x_vect)
 
